@@ -46,3 +46,29 @@ impl Body {
 /// http_util::http_dump_body (async, generic over the body type): reads and drops the rest
 #[verifier::external_body]
 pub fn http_dump_body(body: &mut Body) -> (r: Result<usize, BodyError>) { unimplemented!() }
+
+/// hyper::Request<crate::Body>: only the body matters to the body extractors
+pub struct Request { pub body: Body }
+impl Request {
+    #[verifier::external_body]
+    pub fn into_body(self) -> (r: Body) ensures r == self.body { unimplemented!() }
+}
+pub struct BytesMut { pub data: Ghost<Seq<u8>> }
+impl BytesMut {
+    #[verifier::external_body]
+    pub fn freeze(self) -> (r: Bytes) ensures r.data@ == self.data@ { unimplemented!() }
+}
+impl StreamingBody {
+    /// A5: `into_bytes_mut` is `self.into_stream().try_fold(BytesMut::new(), |out, chunk| { out.put(chunk); ok(out) })`
+    /// (a stream combinator, not extracted).  Its assumed contract is the contract PROVED for
+    /// `into_stream_erased` below, with "the chunks yielded" replaced by their concatenation.
+    #[verifier::external_body]
+    pub fn into_bytes_mut(self) -> (r: Result<BytesMut, HttpError>)
+        ensures
+            self.cap <= usize::MAX - isize::MAX as usize ==> {
+                &&& (r is Ok) == (!has_error(self.body.frames@) && total(data_chunks(self.body.frames@)) <= self.cap)
+                &&& (r is Ok ==> r->Ok_0.data@ == concat_all(data_chunks(self.body.frames@)))
+                &&& (r is Err ==> status_of(r->Err_0) == 400)
+            }
+    { unimplemented!() }
+}
